@@ -541,9 +541,12 @@ def run(ctx):
         "property text fixes only 00-56 and 69-99 (the implementation and the model map 57-68 to 2057-2068, POSIX %y)",
         "file/stream sources: the reader (_get_first_tle) is outside this model; its result is compared with the model on the bare lines",
     ]
-    numeric.regen_ast(ctx, "tle", "Tle._checksum, _read_tle (lines given), _parse_tle, __init__ call order; float()/int()/strptime/"
-                      "timedelta stay the hand models of M_TleText (validated against CPython by the C02 correspondence run)")
+    src, _names = numeric.regen_ast(ctx, "tle", "Tle._checksum, _read_tle (lines given), _parse_tle, __init__ call order; float()/int()/strptime/"
+                                    "timedelta stay the hand models of M_TleText (validated against CPython by the C02 correspondence run)",
+                                    optional=True)
     ctx.build_props("props/C02.v")
+    if src is not None:
+        ctx.build_props("props/C02_source.v")
     cases = make_cases(ctx)
     for c in cases:
         pc = parse_columns(c["l1"], c["l2"])
